@@ -1,5 +1,5 @@
 (* C07 -- a response is delivered only to the connection that sent its request, in order. *)
-From MH Require Import proofs.Server_proofs proofs.Write_proofs proofs.Progress_proofs proofs.Provenance_proofs.
+From MH Require Import proofs.Server_proofs proofs.Write_proofs proofs.Progress_proofs proofs.Provenance_proofs proofs.Stream_proofs.
 
 (* The token the application holds for a yielded request is the descriptor number.  In every
    world reachable by any client behaviour, any event order and ANY choice of unused descriptor
@@ -144,14 +144,135 @@ Proof. exact respond_unsent. Qed.
 Example C07_history_example : exists tr w, history 1024 ((w, [(1%nat, 0%nat)]) :: tr).
 Proof. exact history_example. Qed.
 
-(* What is still not ONE theorem: the concatenation of the statements above into a single sentence
-   about the full byte stream a client reads over a whole history (it would need a ghost log of all
-   bytes ever delivered).  Each link is proved: binding of instances to clients over histories,
-   tokens to instances (C07_token_inv), supplied responses to the token's entry, unsent output to
-   its two sources, received bytes to the unsent output of a connection of that client; what a
-   connection writes is a prefix of what was enqueued on it (C06).  K3 (bytes written on a descriptor
-   reach that descriptor's peer) is the kernel contract.  The correspondence run decides the full
-   statement on real sockets with tagged requests and echoing responses. *)
+(* ------------------------------------------------------------------------------------------------
+   THE WHOLE STREAM (proofs/Stream_proofs.v).  A history is any sequence of
+     GPoll     a poll with any contract-abiding batch (evt_ok, one event per descriptor, any order, any partial
+               read / write amounts) that is truthful about hang-ups (evt_true: a hang-up is reported only for a
+               client that has hung up; input only when there is input and no hang-up),
+     GRespond  a response for a token the application holds,
+     GFlush    flush_outgoing_writes,
+     GEnv      anything clients and the environment do that leaves the server's table alone -- send, close,
+               half-close either way, read, signal the kill switch, change the limit, NEW clients asking to
+               connect (a client connects once) -- where a direction that is closed stays closed (env_ok),
+   from the empty server.  The bookkeeping is observable from outside: g_rcv c = every byte the server side ever
+   appended to c's receive queue (d c is the growth of that queue over the step), g_sup g = the responses supplied
+   with a token of instance g in supply order, g_yld g = number of requests yielded for g.
+   At every point of every history there are a one-to-one map beta from connection instances to clients and, per
+   instance, a sequence log g of responses such that what client c has received is NOTHING, or its own 503
+   refusal, or a PREFIX of the serialisation of log g for the one instance g of c; every element of log g is a
+   server-generated reply (100 Continue / 400) or a response the application supplied with a token of g, the
+   latter forming a SUBSEQUENCE of g_sup g (each at most once, in the order supplied; a response for a closed
+   connection is dropped); a token (fd, g) the application holds names a table entry of instance g; and the
+   responses supplied for g plus the tokens of g still held are exactly the requests yielded for g.  Hence a
+   response supplied with a token of instance g can only appear in the stream of client beta g, whatever
+   descriptor numbers are reused. *)
+Theorem C07_stream_provenance : forall BUF, (2 <= BUF)%nat -> N.of_nat BUF < U32_LIMIT ->
+  forall w toks G, greach BUF (w, toks, G) ->
+  exists (beta : nat -> nat) (log : nat -> list item),
+    (forall g g', (g < w_nextg w)%nat -> (g' < w_nextg w)%nat -> beta g = beta g' -> g = g') /\
+    (forall fd x, alookup fd (w_conns w) = Some x -> beta (sc_gid x) = sc_client x) /\
+    (forall fd g, In (fd, g) toks -> exists x, alookup fd (w_conns w) = Some x /\ sc_gid x = g) /\
+    (forall g, gens_ok (log g) /\ subseq (apps (log g)) (g_sup G g)) /\
+    (forall g, (length (g_sup G g) + count_g g toks = g_yld G g)%nat) /\
+    forall c, g_rcv G c = [] \/
+              (g_rcv G c = SERVER_FULL_ERROR_MESSAGE /\ forall g, (g < w_nextg w)%nat -> beta g <> c) \/
+              exists g tail, (g < w_nextg w)%nat /\ beta g = c /\ g_rcv G c ++ tail = ser (log g).
+Proof. exact stream_provenance. Qed.
+
+(* the definitions the statement rests on, pinned *)
+Theorem C07_stream_vocabulary :
+  (forall l, ser l = flat_map (fun i => serialize (iresp i)) l) /\
+  (forall l, apps l = flat_map (fun i => match i with IApp r => [r] | IGen _ => [] end) l) /\
+  (forall l, gens_ok l <-> Forall (fun i => match i with IGen r => server_generated r | IApp _ => True end) l) /\
+  (forall r, server_generated r <-> (exists v, r = response_new v Continue) \/ (exists e, r = bad_request_response e)) /\
+  (forall w e, evt_true w e <->
+     match e with
+     | EvIn fd _ => forall x, alookup fd (w_conns w) = Some x ->
+                     k_hup (client_of w (sc_client x)) = false /\ k_tosrv (client_of w (sc_client x)) <> []
+     | EvHup fd => forall x, alookup fd (w_conns w) = Some x -> k_hup (client_of w (sc_client x)) = true
+     | _ => True
+     end) /\
+  (forall w w' seen new, env_ok w w' seen new <->
+     w_conns w' = w_conns w /\ w_nextg w' = w_nextg w /\ w_backlog w' = w_backlog w ++ new /\
+     NoDup new /\ (forall c, In c new -> ~ In c seen) /\
+     forall c, In c seen ->
+       (k_hup (client_of w c) = true -> k_hup (client_of w' c) = true) /\
+       (k_can_receive (client_of w c) = false -> k_can_receive (client_of w' c) = false)).
+Proof.
+  split; [reflexivity|]. split; [reflexivity|]. split; [intros l; reflexivity|]. split; [intros r; reflexivity|].
+  split; [intros w e; destruct e; reflexivity|]. intros; reflexivity.
+Qed.
+
+(* the steps of a history, pinned: each constructor of gstep is exactly this *)
+Theorem C07_stream_steps : forall BUF s s', gstep BUF s s' <->
+  (exists w toks G es w' ys d G',
+     s = (w, toks, G) /\ s' = (w', ytoks ys ++ toks, G') /\
+     Forall (evt_ok w) es /\ Forall (evt_true w) es /\ NoDup (map ev_key es) /\ ~ In KKill (map ev_key es) /\
+     poll_with BUF w es = PYield w' ys /\
+     (forall c, k_rx (client_of w' c) = k_rx (client_of w c) ++ d c) /\
+     (forall c, g_rcv G' c = g_rcv G c ++ d c) /\
+     (forall g, g_yld G' g = (g_yld G g + count_g g (ytoks ys))%nat) /\
+     (forall g, g_sup G' g = g_sup G g) /\ g_seen G' = g_seen G) \/
+  (exists w t1 t2 fd g r w' G G',
+     s = (w, t1 ++ (fd, g) :: t2, G) /\ s' = (w', t1 ++ t2, G') /\ respond w fd r = inl w' /\
+     (forall g0, g_sup G' g0 = if Nat.eqb g0 g then g_sup G g ++ [r] else g_sup G g0) /\
+     (forall c, g_rcv G' c = g_rcv G c) /\ (forall g0, g_yld G' g0 = g_yld G g0) /\ g_seen G' = g_seen G) \/
+  (exists w toks G d G',
+     s = (w, toks, G) /\ s' = (flush w, toks, G') /\
+     (forall c, k_rx (client_of (flush w) c) = k_rx (client_of w c) ++ d c) /\
+     (forall c, g_rcv G' c = g_rcv G c ++ d c) /\
+     (forall g, g_sup G' g = g_sup G g) /\ (forall g, g_yld G' g = g_yld G g) /\ g_seen G' = g_seen G) \/
+  (exists w toks w' new G G',
+     s = (w, toks, G) /\ s' = (w', toks, G') /\ env_ok w w' (g_seen G) new /\
+     (forall c, g_rcv G' c = g_rcv G c) /\ (forall g, g_sup G' g = g_sup G g) /\ (forall g, g_yld G' g = g_yld G g) /\
+     g_seen G' = g_seen G ++ new).
+Proof.
+  intros BUF s s'. split.
+  - intros H. inversion H; subst.
+    + left. do 8 eexists. repeat (split; [eassumption || reflexivity|]). assumption.
+    + right. left. do 9 eexists. repeat (split; [eassumption || reflexivity|]). assumption.
+    + right. right. left. do 5 eexists. repeat (split; [eassumption || reflexivity|]). assumption.
+    + right. right. right. do 6 eexists. repeat (split; [eassumption || reflexivity|]). assumption.
+  - intros [H|[H|[H|H]]].
+    + destruct H as (w & toks & G & es & w' & ys & d & G' & -> & -> & A1 & A2 & A3 & A4 & A5 & A6 & A7 & A8 & A9 & A10).
+      eapply GPoll; eauto.
+    + destruct H as (w & t1 & t2 & fd & g & r & w' & G & G' & -> & -> & A1 & A2 & A3 & A4 & A5).
+      eapply GRespond; eauto.
+    + destruct H as (w & toks & G & d & G' & -> & -> & A1 & A2 & A3 & A4 & A5).
+      eapply GFlush; eauto.
+    + destruct H as (w & toks & w' & new & G & G' & -> & -> & A1 & A2 & A3 & A4 & A5).
+      eapply GEnv; eauto.
+Qed.
+Theorem C07_stream_histories : forall BUF s, greach BUF s <->
+  s = (world0, [], ghost0) \/ exists s0, greach BUF s0 /\ gstep BUF s0 s.
+Proof.
+  intros BUF s. split.
+  - intros H. inversion H; subst; [left; reflexivity|right; eauto].
+  - intros [->|(s0 & H0 & H1)]; [apply GR0|eapply GRS; eauto].
+Qed.
+
+(* the executable model's own poll (level-triggered readiness of the model kernel, which the correspondence run
+   executes against the real server) is such a step whenever the switch has not been signalled *)
+Theorem C07_executable_poll_is_a_step : forall BUF, (2 <= BUF)%nat -> N.of_nat BUF < U32_LIMIT ->
+  forall w toks G beta log w' ys,
+  SIg BUF (w, toks, G) beta log -> w_killed w = false -> poll BUF w = PYield w' ys ->
+  gstep BUF (w, toks, G) (w', ytoks ys ++ toks, gpoll G w w' ys).
+Proof. exact canonical_gstep. Qed.
+Theorem C07_executable_poll_truthful : forall BUF w toks, Inv BUF w toks -> Forall (evt_true w) (ready_events w).
+Proof. exact ready_events_true. Qed.
+
+(* non-vacuity: connect, send a request, two polls, the application answers, one more poll: the client has
+   received exactly that response *)
+Example C07_stream_example :
+  exists w toks G, greach 1024 (w, toks, G) /\
+    g_rcv G 0%nat = serialize (response_new Http11 NoContent) /\
+    g_sup G 0%nat = [response_new Http11 NoContent] /\ g_yld G 0%nat = 1%nat /\ toks = [].
+Proof. exact stream_example. Qed.
+
+(* Assumed, not proved (kernel contract): K3 bytes written on a descriptor reach that descriptor's peer in order
+   (the model's k_rx of the connection's client); K4 truthfulness of hang-up / input reports as stated in evt_true;
+   a closed or shut-down direction of a socket stays so (env_ok); a client socket connects once.  The correspondence
+   run decides the same statement on real sockets with tagged requests and echoing responses. *)
 
 Print Assumptions C07_token_inv.
 Print Assumptions C07_never_reaped_with_token.
@@ -169,3 +290,10 @@ Print Assumptions C07_sweep_delivers_nothing.
 Print Assumptions C07_respond_delivers_nothing.
 Print Assumptions C07_read_adds_own_replies_only.
 Print Assumptions C07_respond_adds_to_token_entry_only.
+Print Assumptions C07_stream_provenance.
+Print Assumptions C07_stream_vocabulary.
+Print Assumptions C07_stream_steps.
+Print Assumptions C07_stream_histories.
+Print Assumptions C07_executable_poll_is_a_step.
+Print Assumptions C07_executable_poll_truthful.
+Print Assumptions C07_stream_example.
